@@ -41,6 +41,11 @@ mutual
        | .ptr _, _ => false
        | _, .ptr te' => te' == te && checkTy p inner s te
        | _, _ => false)
+    | .srcPtr t' inner, s, t =>
+      (match under p.conv.env s, under p.conv.env t with
+       | _, .ptr _ => false
+       | .ptr se, _ => t' == t && checkTy p inner se t
+       | _, _ => false)
     | .list te hasMake hasGuard elem, s, t =>
       (match under p.conv.env s, under p.conv.env t with
        | .slice se, .slice te' => hasMake && hasGuard && te' == te && checkTy p elem se te
